@@ -409,6 +409,17 @@ fn text_menu() -> Vec<String> {
     menu
 }
 
+/// byte position right after the element name of the tag that ends at `tag_end`
+fn tag_name_end(base: &str, tag_end: usize) -> Option<usize> {
+    let bytes = base.as_bytes();
+    let start = (0..tag_end).rev().find(|&i| bytes[i] == b'<')?;
+    let mut j = start + 1;
+    while j < tag_end && !bytes[j].is_ascii_whitespace() && bytes[j] != b'/' && bytes[j] != b'>' {
+        j += 1;
+    }
+    Some(j)
+}
+
 /// positions just before the '>' or '/>' of every start / empty tag
 fn tag_ends(base: &str) -> Vec<usize> {
     let bytes = base.as_bytes();
@@ -604,6 +615,15 @@ pub fn run(tier: &str, rec: &Recorder) -> RunOutput {
                     c.inc("attribute_injections");
                     check_doc(&doc, &case, SPEC_MENU[0], rec, &mut c);
                     wd.leave();
+                    // ... and as the FIRST attribute (a duplicate then precedes the original)
+                    if let Some(sp) = tag_name_end(&base, pos) {
+                        let doc = format!("{} {a}=\"{v}\"{}", &base[..sp], &base[sp..]);
+                        let case = format!("attrf:{ti}:{a}:{v}");
+                        wd.enter(&case);
+                        c.inc("attribute_injections");
+                        check_doc(&doc, &case, SPEC_MENU[0], rec, &mut c);
+                        wd.leave();
+                    }
                 }
             }
         }
@@ -725,6 +745,13 @@ pub fn replay(case: &str, rec: &Recorder) -> bool {
         } else {
             None
         }
+    } else if let Some(rest) = main.strip_prefix("attrf:") {
+        let mut it = rest.splitn(3, ':');
+        let ti: usize = it.next().and_then(|x| x.parse().ok()).unwrap_or(0);
+        let a = it.next().unwrap_or("");
+        let v = it.next().unwrap_or("");
+        let base = bases()[3].1.clone();
+        tag_ends(&base).get(ti).and_then(|&pos| tag_name_end(&base, pos)).map(|sp| format!("{} {a}=\"{v}\"{}", &base[..sp], &base[sp..]))
     } else if let Some(rest) = main.strip_prefix("attr:") {
         let mut it = rest.splitn(3, ':');
         let ti: usize = it.next().and_then(|x| x.parse().ok()).unwrap_or(0);
